@@ -28,10 +28,10 @@ type Prop struct {
 	Count func(tier string) int
 	// Custom, when set, replaces plan execution entirely (states/loader checks
 	// that do not need whole instances): it returns the run record itself.
-	Custom func(t *testing.T, seed uint64, tier string, replay *Plan) (*Plan, *RunResult, *Verdict)
-	Rule  string // how cases are generated and what makes one non-trivial
-	Real  []string
-	Stub  []string
+	Custom      func(t *testing.T, seed uint64, tier string, replay *Plan) (*Plan, *RunResult, *Verdict)
+	Rule        string // how cases are generated and what makes one non-trivial
+	Real        []string
+	Stub        []string
 	Assumptions []string
 }
 
@@ -60,16 +60,16 @@ type RunRecord struct {
 
 // ReplayFile is what a violation is reported with.
 type ReplayFile struct {
-	Prop      string      `json:"prop"`
-	Seed      uint64      `json:"seed"`
-	Tier      string      `json:"tier"`
-	Violation Violation   `json:"violation"`
-	Hash      string      `json:"event_log_hash"`
-	Tree      string      `json:"tree,omitempty"`
-	Minimised bool        `json:"minimised"`
-	ShrinkLog []string    `json:"shrink_log,omitempty"`
-	Plan      *Plan       `json:"plan"`
-	EventLog  []string    `json:"event_log,omitempty"`
+	Prop      string    `json:"prop"`
+	Seed      uint64    `json:"seed"`
+	Tier      string    `json:"tier"`
+	Violation Violation `json:"violation"`
+	Hash      string    `json:"event_log_hash"`
+	Tree      string    `json:"tree,omitempty"`
+	Minimised bool      `json:"minimised"`
+	ShrinkLog []string  `json:"shrink_log,omitempty"`
+	Plan      *Plan     `json:"plan"`
+	EventLog  []string  `json:"event_log,omitempty"`
 }
 
 // execOne runs one plan (or custom case) and evaluates its oracles.
@@ -161,7 +161,7 @@ func WorkerMain(t *testing.T) {
 		fmt.Println(string(b))
 	case "meta":
 		type meta struct {
-			ID, Level, Rule string
+			ID, Level, Rule         string
 			Real, Stub, Assumptions []string
 		}
 		var out []meta
